@@ -183,15 +183,22 @@ def build():
     def two_requests(ctx):
         """two create requests in ONE subroutine: each reaches the network stack with ITS OWN parameters (no state carried from one to the next).
         Parameter values are enumerated (small), so that an implementation that keys something by them stays executable."""
-        vals = [0, 8, 24]
+        triples = [(0, 0, 0), (8, 0, 0), (0, 8, 24)]
+        REPR = [(1, 0, 0, None, None), (2, 1, 0, None, None), (1, 0, 1, None, None), (2, 0, 0, RandomBasis.XZ, None), (1, 0, 0, None, RandomBasis.XZ),
+                (2, 2, 2, RandomBasis.CHSH, RandomBasis.XZ)]
         conn, ex, epr, subs, sid = _mk(ctx, sock_id=3)
         params = []
+        full = ctx.choice("request with all parameter combinations", [0, 1])      # the other one takes 6 representative settings
         for k in range(2):
-            n = ctx.choice(f"number{k}", [1, 2])
-            rl = tuple(ctx.choice(f"rl{k}_{j}", vals) for j in range(3))
-            rr = tuple(ctx.choice(f"rr{k}_{j}", vals) for j in range(3)) if ctx.choice(f"remote_rot{k}", [False, True]) else (0, 0, 0)
-            rbl = ctx.choice(f"rbl{k}", [None, RandomBasis.XZ, RandomBasis.CHSH])
-            rbr = ctx.choice(f"rbr{k}", [None, RandomBasis.XZ])
+            if k == full:
+                n = ctx.choice(f"number{k}", [1, 2])
+                rl = triples[ctx.choice(f"rl{k}", [0, 1, 2])]
+                rr = triples[ctx.choice(f"rr{k}", [0, 1, 2])]
+                rbl = ctx.choice(f"rbl{k}", [None, RandomBasis.XZ, RandomBasis.CHSH])
+                rbr = ctx.choice(f"rbr{k}", [None, RandomBasis.XZ])
+            else:
+                n, i, j, rbl, rbr = REPR[ctx.choice(f"setting{k}", list(range(len(REPR))))]
+                rl, rr = triples[i], triples[j]
             params.append((n, rl, rr, rbl, rbr))
             ctx.call(epr.create_measure, number=n, rotations_local=rl, rotations_remote=rr, random_basis_local=rbl, random_basis_remote=rbr)
         _flush(ctx, conn)
@@ -208,7 +215,7 @@ def build():
             ctx.check(f"request {k}: random-basis-local", _same_member(ctx, r.random_basis_local, rbl if rbl is not None else RandomBasis.NONE))
             ctx.check(f"request {k}: random-basis-remote", _same_member(ctx, r.random_basis_remote, rbr if rbr is not None else RandomBasis.NONE))
     R.add("request[two create_measure requests in one subroutine]", kind="lia", samples=300, max_paths=200000, thorough_only=True,
-          note="exhaustive over the enumerated parameter values (thorough tier); the quick tier runs the sampled native version below")(two_requests)
+          note="one request ranges over all 108 enumerated parameter combinations, the other over 6 representative settings, both orders (1296 paths, thorough tier); the quick tier runs the sampled version below")(two_requests)
 
     def two_requests_sampled(ctx):
         if True:
